@@ -243,7 +243,7 @@ fn batch_cases(thorough: bool) -> Vec<Vec<(i64, bool)>> {
 }
 
 pub fn run(cli: &Cli) -> (Value, Vec<Violation>) {
-    let thorough = cli.thorough();
+    let thorough = cli.level() >= 1;
     let replies: Vec<(&str, Vec<u8>)> = vec![
         ("-2", b"-2".to_vec()),
         ("-1", b"-1".to_vec()),
@@ -363,7 +363,7 @@ pub fn run(cli: &Cli) -> (Value, Vec<Violation>) {
         }
     }
     // ---- batch family: several keys with different answers in one PTTL/DUMP pipeline ----
-    let cases = batch_cases(thorough);
+    let cases = batch_cases(cli.level() >= 2);
     let batch_n = cases.len();
     let mut batch_restores = 0usize;
     let cases = std::sync::Arc::new(cases);
